@@ -61,64 +61,60 @@ def check(ctx: Ctx) -> None:
     fs = repo.func("gateway_base.WorkerGateway._local_schedulexec")
     cfgs = build_cfg(repo, fs, Oracle(repo, fs, precise=True))
     with ctx.obligation("C14.b", "clear-after-wait") as ob:
-        clears = cfg_nodes_with_call(cfgs, lambda c: _is_evt_call(c, "clear"))
-        waits = [n for n in cfgs.nodes if n.kind == "test" and any(_is_evt_call(c, "wait") for c in calls_in_node(n))]
-        wait_vars = {}
-        if not waits:
-            # `done = X.wait(timeout=..)` ; `if not done:`
-            for n in cfgs.nodes:
-                if n.kind == "stmt" and isinstance(n.ast, ast.Assign) and isinstance(n.ast.value, ast.Call) and _is_evt_call(n.ast.value, "wait") and isinstance(n.ast.targets[0], ast.Name):
-                    var = n.ast.targets[0].id
-                    for t in cfgs.nodes:
-                        if t.kind == "test" and unparse(t.ast) in (var, f"not {var}") and cfgs.dominated_by(t.id, n.id):
-                            waits.append(t)
-                            wait_vars[t.id] = (var, n.ast.value)
-        spawns = cfg_nodes_with_call(cfgs, lambda c: callee_attr(c) == "spawn")
-        ob.require(bool(waits) and bool(spawns), "wait/spawn anchors missing in _local_schedulexec")
-        if not clears:
-            ob.site(fs, fs.node, "clear() of the completion event in the scheduling step", found=False)
-        for w in waits:
-            wc = wait_vars[w.id][1] if w.id in wait_vars else [c for c in calls_in_node(w) if _is_evt_call(c, "wait")][0]
-            to = arg(wc, 0, "timeout")
-            val = repo.fold_in(to, fs) if to is not None else None
-            ob.site(fs, wc, f"bounded wait timeout={val!r}")
-            if to is None or val is UNKNOWN or val is None or not (isinstance(val, (int, float)) and val > 0):
-                ob.violation(fs, wc, "the wait for the previous task has no positive constant timeout: the deadlock "
-                                     "answer can be given although the previous body is just finishing")
-        for cl in clears:
-            atoms_ = guard_atoms(cfgs, cl.id)
-            ok = any(pol and (f"{EVT}.wait(" in a or a in {v for v, _c in wait_vars.values()}) for (a, pol, _t) in atoms_)
-            ob.site(fs, cl.ast, "clear() dominated by successful wait", guards=[f"{a}={p}" for a, p, _ in atoms_])
-            if not ok:
-                ob.violation(fs, cl.ast, "clear() of the completion event is not dominated by a successful wait()")
-        # rejection arm: from the failed wait only channel.close(TEXT) then return
-        for w in waits:
-            negated = isinstance(w.ast, ast.UnaryOp) and isinstance(w.ast.op, ast.Not)
-            fail_label = "true" if negated else "false"
-            fail_succ = [m for (m, lab) in cfgs.succ[w.id] if lab == fail_label]
-            region = cfgs.reach(fail_succ) - {cfgs.exit.id, cfgs.raise_exit.id}
-            closes = 0
-            for nid in region:
-                n = cfgs.nodes[nid]
-                for c in calls_in_node(n):
-                    a = callee_attr(c)
-                    if a == "close" and c.args and repo.fold_in(c.args[0], fs) == repo.module("gateway_base").consts.get("MAIN_THREAD_ONLY_DEADLOCK_TEXT"):
-                        closes += 1
-                    elif a in ("clear", "set", "spawn", "start"):
-                        ob.violation(fs, c, f"the deadlock-rejection arm also performs {a}() -- it must leave the running task and the event untouched")
-            ob.site(fs, w.ast, "rejection arm = close(DEADLOCK_TEXT) only", closes=closes)
-            if closes != 1:
-                ob.violation(fs, w.ast, "the rejection arm does not close the channel with the documented deadlock text exactly once")
-        # every path from the main_thread_only arm to spawn passes clear()
-        mt_tests = [n for n in cfgs.nodes if n.kind == "test" and "main_thread_only" in unparse(n.ast)]
-        ob.require(bool(mt_tests), "backend test missing")
-        for t in mt_tests:
-            starts = [m for (m, lab) in cfgs.succ[t.id] if lab == "true"]
-            p = cfgs.must_pass(starts, [s.id for s in spawns], {c.id for c in clears})
-            ob.site(fs, t.ast, "main_thread_only arm: spawn only after clear()")
-            if p is not None:
-                ob.violation(fs, spawns[0].ast, "under main_thread_only a task can be spawned without clearing the completion event",
-                             path=cfgs.describe_path(p))
+        from ..terms import const, evaluator, show
+        evs = evaluator(repo, fs)
+        EV = f"self.{EVT}"
+        TEXT = repo.module("gateway_base").consts.get("MAIN_THREAD_ONLY_DEADLOCK_TEXT")
+        MT = ("cmp", "eq", ("sym", "self._execpool.execmodel.backend"), const("main_thread_only"))
+        nwait = nspawn = nmt = 0
+        seen = set()
+        for (pth, st) in evs.run(limit=4000):
+            mt = st.known.get(MT)
+            if mt is None:
+                if any(e.kind == "call" and e.attr == "spawn" for e in st.events):
+                    ob.violation(fs, fs.node, "a task is spawned without testing for the main_thread_only backend")
+                continue
+            nmt += 1
+            calls = [e for e in st.events if e.kind == "call"]
+            waits = [e for e in calls if e.callee == f"{EV}.wait"]
+            for w in waits:
+                nwait += 1
+                to = w.arg(0, "timeout")
+                val = to[1] if to is not None and to[0] == "const" else None
+                if id(w.node) not in seen:
+                    seen.add(id(w.node))
+                    ob.site(fs, w.node, f"bounded wait timeout={val!r}")
+                if not (isinstance(val, (int, float)) and not isinstance(val, bool) and val > 0):
+                    ob.violation(fs, w.node, "the wait for the previous task has no positive constant timeout: the deadlock "
+                                             "answer can be given although the previous body is just finishing")
+            ok_waits = [w for w in waits if st.known.get(w.result) is True]
+            failed = [w for w in waits if st.known.get(w.result) is False]
+            for c in [e for e in calls if e.callee == f"{EV}.clear"]:
+                ok = any(calls.index(w) < calls.index(c) and (w.result, True) in st.cond[:c.ncond] for w in ok_waits)
+                ob.site(fs, c.node, "clear() dominated by successful wait", ok=ok)
+                if not ok:
+                    ob.violation(fs, c.node, "clear() of the completion event is not dominated by a successful wait()")
+            if failed and mt is True:
+                after = calls[calls.index(failed[0]) + 1:]
+                closes = [e for e in after if e.attr == "close" and e.args[:1] == (const(TEXT),)]
+                for e in after:
+                    if e.attr in ("clear", "set", "spawn", "start"):
+                        ob.violation(fs, e.node, f"the deadlock-rejection arm also performs {e.attr}() -- it must leave the running task and the event untouched")
+                ob.site(fs, failed[0].node, "rejection arm = close(DEADLOCK_TEXT) only", closes=len(closes))
+                if len(closes) != 1:
+                    ob.violation(fs, failed[0].node, "the rejection arm does not close the channel with the documented deadlock text exactly once")
+            for sp in [e for e in calls if e.attr == "spawn"]:
+                nspawn += 1
+                if mt is True:
+                    cleared = any(e.callee == f"{EV}.clear" and calls.index(e) < calls.index(sp) for e in calls)
+                    ob.site(fs, sp.node, "main_thread_only arm: spawn only after clear()", ok=cleared)
+                    if not cleared:
+                        ob.violation(fs, sp.node, "under main_thread_only a task can be spawned without clearing the completion event",
+                                     path=evs.cfg.describe_path(pth))
+        if nmt == 0:
+            ob.violation(fs, fs.node, "_local_schedulexec does not test for the main_thread_only backend", construct="backend test missing")
+        elif nwait == 0 or nspawn == 0:
+            ob.violation(fs, fs.node, "the scheduling step does not wait for the previous task before handing over the next one", construct="wait/spawn missing")
 
     # ---- C14.c main-thread arm of the mailbox
     ft = repo.func("gateway_base.WorkerPool._try_send_to_primary_thread")
